@@ -66,16 +66,16 @@ fn sizes(t: Tier) -> Sizes {
             set_worlds: 16,
         },
         Tier::Thorough => Sizes {
-            exhaustive_n: 13,
-            pairs: 30,
-            stm_sampled_shards: 64,
+            exhaustive_n: 14,
+            pairs: 40,
+            stm_sampled_shards: 128,
             stm_trees: 30,
-            mk_sampled_shards: 64,
+            mk_sampled_shards: 128,
             mk_trees: 30,
             map_exh_max_ranges: 3,
-            map_sampled_shards: 128,
+            map_sampled_shards: 256,
             map_worlds: 40,
-            set_shards: 64,
+            set_shards: 128,
             set_worlds: 40,
         },
     }
@@ -316,6 +316,8 @@ fn replay(path: &std::path::Path, mon: &mut Monitor) -> bool {
         }
         #[cfg(feature = "full")]
         Some("stm") => stm::replay(r, mon),
+        #[cfg(feature = "full")]
+        Some("mksetproof-tx") => setproof::replay(r, mon),
         _ => false,
     }
 }
@@ -373,6 +375,10 @@ fn miri_workload(seed: u64) -> ! {
 }
 
 fn main() {
+    // anyhow captures a std backtrace for every error when RUST_BACKTRACE is set (it is, in the
+    // verification environment): that is slow and serialises all threads on std's global backtrace
+    // lock - every rejected proof is an anyhow error here. Library backtraces are not needed.
+    std::env::set_var("RUST_LIB_BACKTRACE", "0");
     let args = vcore::parse_args();
     vcore::install_panic_hook();
     if args.prop != "C09" {
@@ -391,7 +397,7 @@ fn main() {
         // a replay re-judges the single stored case and writes nothing (evidence and replay files of
         // the last real run stay untouched)
         if !replay(path, &mut mon) {
-            println!("INCONCLUSIVE property=C09 replay file not understood (supported kinds: stm, mkproof, mkmap)");
+            println!("INCONCLUSIVE property=C09 replay file not understood (supported kinds: stm, mkproof, mkmap, mksetproof-tx)");
             std::process::exit(2);
         }
         if mon.violations() > 0 {
@@ -503,6 +509,7 @@ fn main() {
             "panics inside verification on hostile indices/positions count as rejections (reported as verifier_panic@file:line counters)",
             "MKProof/MKMapProof carry their own root: 'verifies against the commitment' = verify() is Ok AND root()/compute_root() equals the committed root recomputed by the reference",
             "entries H(key||root) of a map's master proof count as committed (they are leaves of the committed master tree)",
+            "STM batch path indices are relative to the nr_leaves the verifier is given: under an altered nr_leaves a claim (index, leaf) is judged at heap-position level (true when the committed tree holds that leaf at heap position index + 2^ceil(log2 nr_leaves) - 1)",
         ],
         1000,
     );
